@@ -47,6 +47,7 @@ import (
 	"github.com/AliceO2Group/Control/common/system"
 	"github.com/AliceO2Group/Control/common/utils"
 	"github.com/AliceO2Group/Control/common/utils/uid"
+	"github.com/AliceO2Group/Control/common/verifhook"
 	"github.com/AliceO2Group/Control/core/task"
 	"github.com/AliceO2Group/Control/core/task/sm"
 	"github.com/AliceO2Group/Control/core/the"
@@ -975,6 +976,10 @@ func (env *Environment) TryTransition(t Transition) (err error) {
 			Infof("environment transition '%s' attempt resumed", t.eventName())
 	}
 	defer env.transitionMutex.Unlock()
+	verifhook.Point("env.lock.acquired", "env", env.id.String(), "what", t.eventName(), "st", env.Sm.Current())
+	defer func() {
+		verifhook.Point("env.lock.release", "env", env.id.String(), "what", t.eventName(), "st", env.Sm.Current())
+	}()
 
 	the.EventWriterWithTopic(topic.Environment).WriteEvent(&pb.Ev_EnvironmentEvent{
 		EnvironmentId:        env.id.String(),
@@ -1167,6 +1172,7 @@ func (env *Environment) setState(state string) {
 	}
 	env.Mu.Lock()
 	defer env.Mu.Unlock()
+	verifhook.Point("env.setstate", "env", env.id.String(), "from", env.Sm.Current(), "to", state)
 	env.Sm.SetState(state)
 }
 
@@ -1186,11 +1192,13 @@ func (env *Environment) subscribeToWfState(taskman *task.Manager) {
 			for {
 				select {
 				case wfState = <-notify:
+					verifhook.Point("env.watch.recv", "env", env.id.String(), "state", wfState.String())
 					if wfState == sm.ERROR {
 						if !handlingError {
 							handlingError = true
 
 							time.AfterFunc(500*time.Millisecond, func() { // wait 0.5s for any other tasks to go to ERROR/INACTIVE
+								verifhook.Point("env.watch.fire", "env", env.id.String())
 								log.WithField("partition", env.id).
 									WithField("level", infologger.IL_Ops).
 									Error("one of the critical tasks went into ERROR state, transitioning the environment into ERROR")
